@@ -19,6 +19,12 @@ Three workloads on the real IOLoop (AsyncIOLoop over asyncio):
          second asyncio loop / a second tornado IOLoop) and calls the target's
          add_callback from inside that loop's coroutine or callback ("any
          other thread" includes threads in which some other loop is running).
+         The target loop may have a HISTORY before it is finally started on its
+         loop thread: the same IOLoop object was run earlier (run_sync, or
+         start()+stop()) on other threads - a thread that later acts as producer,
+         a thread that has since exited, or the final loop thread itself - so
+         "the loop thread" is the thread that runs the loop NOW, whatever thread
+         ran it before.
          No verdict is taken from elapsed time: a lost wake-up is reported only
          with a structural stuck-state witness (all producers joined, loop
          thread parked in select with timeout None, loop._ready non-empty,
@@ -31,6 +37,7 @@ import asyncio
 import concurrent.futures
 import datetime
 import math
+import queue
 import socket
 import threading
 import time
@@ -55,7 +62,9 @@ META = {
                   "threads that run an event loop of their own (asyncio.run coroutine, call_soon chain of a second asyncio loop, "
                   "a second tornado IOLoop started or under run_sync) and call the target's add_callback from inside that loop's "
                   "coroutine/callback, all-own-loop, mixed, or own-loop producers last, while the target loop is observed idle "
-                  "in its selector, racing, or not yet started.",
+                  "in its selector, racing, or not yet started. Loop migration: the same IOLoop is first run (run_sync / "
+                  "start+stop) on up to 3 other threads (a later producer, a retired thread, the final loop thread) before it is "
+                  "started on its loop thread; the former runner threads then call add_callback while the loop idles.",
     "level_note": "Interleavings of the threaded part are sampled (distinct executed-thread-sequences are counted in evidence). "
                   "A deadline already past when the scheduling call is made is read as 'due at the call': a pair of timeouts is gated "
                   "when written and effective (max(deadline, time of the call)) deadlines order it the same way by > 8 ulp; pairs "
@@ -70,7 +79,8 @@ RULE = ("prog: random trees of <=12 scheduling units over {add_callback, spawn_c
         "several magnitudes) or anchored at the program start (past by the time of the call); non-trivial if it has >=2 timeouts with distinct "
         "deadlines or a removal or an error-raising unit, and >=4 units; sync: run_sync (function kind x outcome x timeout); "
         "thr: (threads, callbacks per thread, start phase, per-thread producer flavour plain|aio_coro|aio_cb|ioloop|ioloop_sync, "
-        "yield chunk, own-loop-producers-last, shake seed), non-trivial if >=2 producer threads; distinct by case tuple")
+        "yield chunk, own-loop-producers-last, prior runs of the same loop on other threads [(P<i>|X|L, run_sync|start_stop)], "
+        "former-runner-producers-last, shake seed), non-trivial if >=2 producer threads; distinct by case tuple")
 FLOORS = {"quick": 1500, "thorough": 60000}
 ASSUMPTIONS = [
     "virtual loop only for the single-threaded programs; threaded part on a real selector loop",
@@ -81,7 +91,8 @@ REQUIRED_COUNTERS = ["oracle_evals", "prog_units_run", "timeouts_run", "removed_
                      "add_future_callbacks", "deadline_order_pairs", "deadline_order_pairs_past_when_scheduled",
                      "deadline_order_pairs_late_added_to_overdue_pending", "busy_steps", "run_sync_evals", "run_sync_timeouts",
                      "thr_runs", "thr_callbacks", "thr_parked_starts", "thr_own_loop_producer_runs",
-                     "thr_parked_own_loop_starts"]
+                     "thr_parked_own_loop_starts", "thr_migrated_loop_runs", "thr_migrated_prior_runs",
+                     "thr_parked_former_runner_producer_runs"]
 SHARD_TIMEOUT = {"quick": 200, "thorough": 3000}
 
 TOL = 4 * math.ulp(vloop.EPOCH)
@@ -184,6 +195,8 @@ def gen_sync(rng):
 #  ioloop_sync  inside a coroutine driven by a second tornado IOLoop's run_sync in that thread
 OWN_LOOP_FLAVORS = ["aio_coro", "aio_cb", "ioloop", "ioloop_sync"]
 FLAVORS = ["plain"] + OWN_LOOP_FLAVORS
+# how a thread ran the target loop earlier in its history
+PRE_HOWS = ["run_sync", "start_stop"]
 
 
 def gen_thr(rng, maxm):
@@ -207,6 +220,19 @@ def gen_thr(rng, maxm):
     # mixed_last_own: the plain producers are joined before the own-loop ones start (the last calls made to the
     # idle loop come from threads that run another loop)
     case["own_last"] = mode == "mixed_last_own"
+    # history of the loop object before its final start on the loop thread: it was run before (run_sync or start+stop)
+    # on a thread that later produces ("P<i>"), on a thread that has exited since ("X": its ident may be reused by a
+    # thread started later), or on the final loop thread itself ("L")
+    pre = []
+    if rng.random() < 0.45:
+        for _ in range(rng.choice([1, 1, 2, 3])):
+            who = rng.choice(["P", "P", "P", "X", "L"])
+            if who == "P":
+                who = "P%d" % rng.randrange(T)
+            pre.append((who, rng.choice(PRE_HOWS)))
+    case["prehist"] = pre
+    # the producers that ran the loop before start after all others have joined (their calls are the last ones)
+    case["pre_last"] = bool(pre) and rng.random() < 0.5
     return case
 
 
@@ -244,6 +270,20 @@ def directed_cases():
                "sseed": 11 + i, "flavors": [fl, fl], "chunk": [1, 7, 50, 1000000][i], "own_last": False}
     yield {"k": "thr", "T": 3, "M": 40, "phase": "parked", "loop_producer": False, "p_yield": 0.1, "p_sleep": 0.005,
            "sseed": 17, "flavors": ["plain", "aio_coro", "ioloop"], "chunk": 7, "own_last": True}
+    # loop migration: the loop was run before on the thread that now produces / on a retired thread / on the loop
+    # thread itself; it idles in its selector on the loop thread when the former runner calls add_callback
+    base = {"k": "thr", "M": 40, "phase": "parked", "loop_producer": False, "p_yield": 0.1, "p_sleep": 0.005,
+            "chunk": 7, "own_last": False}
+    yield dict(base, T=2, sseed=21, flavors=["plain", "plain"], prehist=[("P0", "run_sync")], pre_last=True)
+    yield dict(base, T=2, sseed=22, flavors=["plain", "plain"], prehist=[("P1", "start_stop")], pre_last=True)
+    yield dict(base, T=2, sseed=23, flavors=["plain", "plain"], prehist=[("P0", "run_sync"), ("P1", "run_sync")],
+               pre_last=False)
+    yield dict(base, T=3, sseed=24, flavors=["plain", "aio_coro", "ioloop"],
+               prehist=[("X", "run_sync"), ("P2", "start_stop"), ("L", "run_sync")], pre_last=True)
+    yield dict(base, T=2, sseed=25, flavors=["plain", "plain"], prehist=[("P1", "run_sync"), ("P0", "start_stop")],
+               pre_last=True, phase="racing", loop_producer=True)
+    yield dict(base, T=2, sseed=26, flavors=["plain", "plain"], prehist=[("L", "start_stop"), ("P0", "run_sync")],
+               pre_last=False, phase="before")
     yield {"k": "sync", "kind": "coro_value", "dur": 2.0, "timeout": 0.1, "pre_raiser": True, "again": True}
     # zero timeout is a timeout (boundary: `if timeout:` vs `if timeout is not None:`)
     yield {"k": "sync", "kind": "coro_value", "dur": 0.4, "timeout": 0, "pre_raiser": False, "again": True}
@@ -696,12 +736,45 @@ def run_thr(case, ctx):
     mon = ThreadMon()
     box = {}
     ready, go, exited = threading.Event(), threading.Event(), threading.Event()
+    prehist = [tuple(x) for x in (case.get("prehist") or [])]
+    pre_tids = {int(w[1:]) for w, _ in prehist if w[0] == "P"}
+    pre_errs = []
+    acks = queue.Queue()
+    lq = queue.Queue()
+    pq = {tid: queue.Queue() for tid in pre_tids}
+
+    def pre_step(who, how):
+        """An earlier run of the very same loop, on the calling thread; it leaves the loop stopped."""
+        io = box["io"]
+        try:
+            if how == "run_sync":
+                async def setup():
+                    await asyncio.sleep(0)
+                    return 42
+                r = io.run_sync(setup)
+                if r != 42:
+                    pre_errs.append((who, how, "run_sync returned %r instead of the function's result 42" % (r,)))
+            else:
+                io.add_callback(io.stop)
+                io.start()
+        except BaseException as e:      # noqa: BLE001
+            pre_errs.append((who, how, repr(e)[:300]))
+        finally:
+            acks.put((who, how))
+
+    def serve_pre(q, who):
+        while True:
+            how = q.get()
+            if how is None:
+                return
+            pre_step(who, how)
 
     def loop_main():
         aloop = asyncio.new_event_loop()
         io = AsyncIOLoop(asyncio_loop=aloop, make_current=False)
         box.update(io=io, aloop=aloop, ident=threading.get_ident())
         ready.set()
+        serve_pre(lq, "L")
         go.wait()
         try:
             io.start()
@@ -716,7 +789,7 @@ def run_thr(case, ctx):
     ntot = T * M + (M if lp else 0)
     mon.total = ntot
 
-    flavors = case.get("flavors") or ["plain"] * T
+    flavors = list(case.get("flavors") or ["plain"] * T)
     chunk_n = case.get("chunk", 50)
     prod_errs = []
 
@@ -731,6 +804,8 @@ def run_thr(case, ctx):
 
     def producer(tid):
         fl = flavors[tid]
+        if tid in pq:
+            serve_pre(pq[tid], "P%d" % tid)     # this thread ran the target loop earlier; now it waits for its turn
         try:
             if fl == "plain":
                 for s in range(M):
@@ -815,13 +890,71 @@ def run_thr(case, ctx):
     threads = [threading.Thread(target=producer, args=(i,), name=f"vf-prod{i}", daemon=True) for i in range(T)]
     witness = None
     inconclusive = None
+    started = set()
+
+    def launch(t):
+        tid = threads.index(t)
+        if tid in started:
+            pq[tid].put(None)       # already running (it ran the loop before): release it into its producer part
+        else:
+            started.add(tid)
+            t.start()
+
+    # ---- history of the loop object: earlier runs on other threads, strictly one after the other
+    for who, how in prehist:
+        if who == "X":
+            x = threading.Thread(target=pre_step, args=(who, how), name="vf-retired", daemon=True)
+            x.start()
+        elif who == "L":
+            lq.put(how)
+        else:
+            tid = int(who[1:])
+            if tid not in started:
+                started.add(tid)
+                threads[tid].start()
+            pq[tid].put(how)
+        try:
+            acks.get(timeout=WATCHDOG)
+        except queue.Empty:
+            inconclusive = "an earlier run of the loop (%s %s) did not return" % (who, how)
+            break
+        if who == "X":
+            x.join(WATCHDOG)
+    lq.put(None)
+    if inconclusive is not None or pre_errs:
+        # nothing was started on the final loop thread; free the helper threads and report
+        for tid in started:
+            flavors[tid] = "plain"
+        M = 0
+        for tid in list(started):
+            pq[tid].put(None)
+        go.set()
+        try:
+            box["aloop"].call_soon_threadsafe(box["aloop"].stop)
+        except RuntimeError:
+            pass
+        exited.wait(10)
+        lt.join(5)
+        if not lt.is_alive():
+            try:
+                io.close(all_fds=True)
+            except Exception:
+                pass
+        ctx.count("thr_runs")
+        if pre_errs:
+            ctx.violation("thr/run-of-loop-before-migration-failed",
+                          "run_sync / start()+stop() of a fresh IOLoop on a thread raised or returned the wrong result",
+                          {"errors": pre_errs[:3], "prehist": prehist})
+            return
+        ctx.count("thr_inconclusive")
+        raise RuntimeError("INCONCLUSIVE thr run: " + inconclusive)
     sh = shake.Shaker(codes, case["sseed"], p_yield=case["p_yield"], p_sleep=case["p_sleep"])
     sh.install()
     try:
         t_end = time.monotonic() + WATCHDOG
         if case["phase"] == "before":
             for t in threads:
-                t.start()
+                launch(t)
             for t in threads:
                 t.join()
             go.set()
@@ -841,19 +974,25 @@ def run_thr(case, ctx):
                     inconclusive = "loop thread never observed parked before producers"
                 if any(f != "plain" for f in flavors):
                     ctx.count("thr_parked_own_loop_starts")
-            first = threads
+                if pre_tids and inconclusive is None:
+                    ctx.count("thr_parked_former_runner_producer_runs")
+            later = set()
             if case.get("own_last"):
                 # plain producers run to completion first; the loop is then left to the own-loop producers alone
-                first = [t for i, t in enumerate(threads) if flavors[i] == "plain"]
+                later |= {i for i in range(T) if flavors[i] != "plain"}
+            if case.get("pre_last"):
+                # ... resp. to the producers whose thread ran this very loop earlier
+                later |= pre_tids
+            first = [t for i, t in enumerate(threads) if i not in later]
             for t in first:
-                t.start()
+                launch(t)
             if lp:
                 aloop.call_soon_threadsafe(loop_producer)      # harness channel, not the method under test
             for t in first:
                 t.join()
             rest = [t for t in threads if t not in first]
             for t in rest:
-                t.start()
+                launch(t)
             for t in rest:
                 t.join()
         # all producers have returned from add_callback: from here a stuck loop is permanent
@@ -897,6 +1036,12 @@ def run_thr(case, ctx):
             except Exception:
                 pass
     ctx.count("thr_runs")
+    if prehist:
+        ctx.count("thr_migrated_loop_runs")
+        ctx.count("thr_migrated_prior_runs", len(prehist))
+        for w, h in prehist:
+            ctx.count("thr_prior_run_on_" + ("producer" if w[0] == "P" else "retired_thread" if w == "X" else "loop_thread"))
+            ctx.count("thr_prior_run_by_" + h)
     n_own = sum(1 for f in flavors if f != "plain")
     if n_own:
         ctx.count("thr_own_loop_producer_runs")
@@ -952,8 +1097,9 @@ def run_thr(case, ctx):
         sw = sum(1 for a, b in zip(ex, ex[1:]) if a[0] != b[0])
         ctx.count("thr_thread_switches_in_execution", sw)
     ctx.mark(("thr", T, M, case["phase"], case["loop_producer"], case["p_yield"], case["p_sleep"], case["sseed"],
-              tuple(flavors), chunk_n, bool(case.get("own_last"))), T >= 2)
-    ctx.sample({k: case.get(k) for k in ("T", "M", "phase", "loop_producer", "flavors", "chunk", "own_last")}, limit=1)
+              tuple(flavors), chunk_n, bool(case.get("own_last")), tuple(prehist), bool(case.get("pre_last"))), T >= 2)
+    ctx.sample({k: case.get(k) for k in ("T", "M", "phase", "loop_producer", "flavors", "chunk", "own_last", "prehist",
+                                         "pre_last")}, limit=1)
 
 
 def run_case(case, ctx):
